@@ -57,6 +57,11 @@ def setup(d):
     }
     for k, v in decls.items():
         textx.register_generator(GeneratorDesc("c30a", "t-" + k, generator=rec, custom_args=v))
+    # generators for any language: used for c30a (which has generators of its own, for other targets) and for c30b (which has none)
+    textx.register_generator(GeneratorDesc("any", "t-any-none", generator=rec, custom_args=None))
+    textx.register_generator(GeneratorDesc("ANY", "t-any-x-mandatory", generator=rec, custom_args=[GeneratorParam("x", "", mandatory=True)]))
+    decls["any-none"] = decls["any-none@b"] = None
+    decls["any-x-mandatory"] = decls["any-x-mandatory@b"] = [GeneratorParam("x", "", mandatory=True)]
     for key, (fn, text) in FILES.items():
         with open(os.path.join(d, fn), "w") as f:
             f.write(text)
@@ -151,7 +156,7 @@ def run_generate(d, shapes, position, decl_name, decls):
         elif sh == "bare":
             custom += ["--" + n]
             given[n.replace("-", "_")] = True
-    model = os.path.join(d, FILES["okA"][0])
+    model = os.path.join(d, FILES["okB" if decl_name.endswith("@b") else "okA"][0])
     # a bare flag directly in front of the model file would swallow it as its value: bare flags go last in 'before' position
     if position == "before":
         valued = [c for c in custom]
@@ -167,9 +172,9 @@ def run_generate(d, shapes, position, decl_name, decls):
                 i += 1
         if bare_last:
             return None, {}  # cannot be expressed unambiguously
-        args = ["generate", "--target", "t-" + decl_name] + ordered + [model]
+        args = ["generate", "--target", "t-" + decl_name.split("@")[0]] + ordered + [model]
     else:
-        args = ["generate", model, "--target", "t-" + decl_name] + custom
+        args = ["generate", model, "--target", "t-" + decl_name.split("@")[0]] + custom
     del RECEIVED[:]
     res = CliRunner().invoke(cli(), args)
     decl = decls[decl_name]
@@ -224,12 +229,14 @@ def run(ctx):
                 cases.append(("check", seq, mode))
     for shapes in itertools.product(("absent", "valued", "bare"), repeat=3):
         for pos in ("after", "before"):
-            for decl in ("none", "all-optional", "x-mandatory", "myarg-mandatory-others-optional", "only-abc-optional", "x-and-abc-mandatory"):
+            for decl in ("none", "all-optional", "x-mandatory", "myarg-mandatory-others-optional", "only-abc-optional", "x-and-abc-mandatory",
+                         "any-none", "any-none@b", "any-x-mandatory", "any-x-mandatory@b"):
                 cases.append(("generate", shapes, pos, decl))
     ctx.pmap(work, [cases[i:i + 40] for i in range(0, len(cases), 40)])
     return {
         "rule": "check: every sequence of 1-3 files over %s x {language deduced per file, --language c30a, --grammar}; generate: every assignment of "
-                "{absent, valued, bare flag} to the custom arguments %s x {before, after the model file} x 6 generator declarations; every case is distinct" % (keys, NAMES),
+                "{absent, valued, bare flag} to the custom arguments %s x {before, after the model file} x 6 generator declarations of the language plus 2 declarations registered for 'any' language "
+                "(used from a language that has generators for other targets and from one that has none); every case is distinct" % (keys, NAMES),
         "exhaustive": True, "cases": len(cases),
     }, ["a bare flag placed directly before the model file is ambiguous by construction of the CLI and is not generated"]
 
